@@ -19,7 +19,7 @@ The Lean project lean-loader/ holds a hand-written, executable model of XRayInit
 
 `loader_tie(ctx, rep)` is the hook for props/c01.py; `python3 props/c01_loader.py [--tier quick|thorough]` runs it alone.
 When something breaks the message names a concrete (file, record, cell)."""
-import os, sys, re, json, time, subprocess, struct, array, fcntl, random, shutil
+import os, sys, re, json, time, subprocess, struct, array, fcntl, random, shutil, math
 
 sys.path.insert(0, os.path.dirname(os.path.dirname(os.path.abspath(__file__))))
 from vlib import core, cbuild
@@ -42,6 +42,74 @@ TABLE_FILE = {t: f for f, (ts, _) in NAMED.items() for t in ts}
 TABLE_NAMES = {'EdgeEnergy_arr': 'ShellName', 'AtomicLevelWidth_arr': 'ShellName', 'FluorYield_arr': 'ShellName', 'JumpFactor_arr': 'ShellName',
                'LineEnergy_arr': 'LineName', 'RadRate_arr': 'LineName', 'CosKron_arr': 'TransName',
                'Auger_Transition_Total': 'AugerNameTotal', 'Auger_Transition_Individual': 'AugerName'}
+# the spline sites: public function, count table, abscissa / ordinate / second-derivative vectors, argument from abscissa,
+# an argument inside every table of the family (used when only the count differs), columns per element (sub-shell sites)
+def _hx(x): return 'x%016x' % struct.unpack('<Q', struct.pack('<d', float(x)))[0]
+_E = lambda x: math.exp(min(x, 700.0)) / 1000.0
+_X = lambda x: math.exp(min(x, 700.0))
+_I = lambda x: x
+_P = lambda x: math.exp(min(x, 700.0)) - 1.0
+SITES = [('CS_Photo', 'NE_Photo', 'E_Photo_arr', 'CS_Photo_arr', 'CS_Photo_arr2', _E, 10.0, 1),
+         ('CS_Rayl', 'NE_Rayl', 'E_Rayl_arr', 'CS_Rayl_arr', 'CS_Rayl_arr2', _E, 10.0, 1),
+         ('CS_Compt', 'NE_Compt', 'E_Compt_arr', 'CS_Compt_arr', 'CS_Compt_arr2', _E, 10.0, 1),
+         ('CS_Energy', 'NE_Energy', 'E_Energy_arr', 'CS_Energy_arr', 'CS_Energy_arr2', _X, 10.0, 1),
+         ('Fi', 'NE_Fi', 'E_Fi_arr', 'Fi_arr', 'Fi_arr2', _I, 10.0, 1), ('Fii', 'NE_Fii', 'E_Fii_arr', 'Fii_arr', 'Fii_arr2', _I, 10.0, 1),
+         ('FF_Rayl', 'Nq_Rayl', 'q_Rayl_arr', 'FF_Rayl_arr', 'FF_Rayl_arr2', _I, 1.0, 1),
+         ('SF_Compt', 'Nq_Compt', 'q_Compt_arr', 'SF_Compt_arr', 'SF_Compt_arr2', _I, 1.0, 1),
+         ('ComptonProfile', 'Npz_ComptonProfiles', 'pz_ComptonProfiles', 'Total_ComptonProfiles', 'Total_ComptonProfiles2', _P, 1.0, 1),
+         ('ComptonProfile_Partial', None, 'pz_ComptonProfiles', 'Partial_ComptonProfiles', 'Partial_ComptonProfiles2', _P, 1.0, 29),
+         ('CSb_Photo_Partial', 'NE_Photo_Partial_Kissel', 'E_Photo_Partial_Kissel', 'Photo_Partial_Kissel', 'Photo_Partial_Kissel2', _X, 30.0, 31)]
+SITE_OF = {}
+for _s in SITES:
+    for _t, _role in ((_s[1], 'n'), (_s[2], 'x'), (_s[3], 'y'), (_s[4], 'y2')):
+        if _t and _t not in SITE_OF: SITE_OF[_t] = (_s, _role)
+
+
+def reader_call(name, j, k, tabs, names=None):
+    """a call of the PUBLIC API that reads cell `k` of vector / row `j` of table `name` (None: no entry point reads that table —
+    EdgeEnergy_Kissel and the total Kissel vectors are loaded but never used).  This is what turns a loader-tie failure
+    into a failing input of the real library (C01's replay)."""
+    def absc(xtab, jx, kk):
+        t = tabs.get(xtab)
+        if not t or t[0] != 'V' or jx >= len(t[2]) or not t[2][jx] or not (0 <= kk < len(t[2][jx])): return None
+        c = t[2][jx][kk]
+        try: return float(c[:c.index(' ')])
+        except ValueError: return None
+    if name in ACCESSOR:
+        ncols = tabs[name][2] if name in tabs and tabs[name][0] == 'F' else 1
+        Z, col = (j, k) if k is not None else (j // ncols, j % ncols)
+        mac = '' if name in ('AtomicWeight_arr', 'ElementDensity_arr') else ' %d' % (-(col + 1) if name in ('LineEnergy_arr', 'RadRate_arr') else col)
+        return '%s %d%s E' % (ACCESSOR[name], Z, mac)
+    if name == 'Electron_Config_Kissel': return 'ElectronConfig %d %d E' % (j, k)
+    if name == 'Auger_Transition_Individual': return 'AugerRate %d %d E' % (j, k)
+    if name == 'Auger_Transition_Total':
+        if names:
+            try:
+                pre = names['tables']['AugerNameTotal'][k].split('-')[0] + '-'
+                return 'AugerRate %d %d E' % (j, next(i for i, n in enumerate(names['tables']['AugerName']) if n.startswith(pre)))
+            except (StopIteration, IndexError, KeyError): pass
+        return 'AugerYield %d %d E' % (j, k)
+    if name == 'UOCCUP_ComptonProfiles': return 'ElectronConfig_Biggs %d %d E' % (j, k if k is not None else 0)
+    if name == 'NShells_ComptonProfiles': return 'ElectronConfig_Biggs %d 0 E' % j
+    if name == 'NE_Photo_Total_Kissel': return 'CSb_Photo_Total %d %s E' % (j, _hx(30.0))
+    if name in SITE_OF:
+        (fn, ntab, xtab, ytab, y2tab, inv, dflt, K), role = SITE_OF[name]
+        Z, sh = (j // K, j % K) if K > 1 else (j, None)
+        jx = j if (K == 1 or xtab == 'E_Photo_Partial_Kissel') else Z
+        arg = dflt
+        if role != 'n' and k is not None:
+            x = absc(xtab, jx, k)
+            if x is not None:
+                if role == 'y2':                        # a second derivative shows between the knots only
+                    x2 = absc(xtab, jx, k + 1)
+                    if x2 is None: x2 = absc(xtab, jx, k - 1)
+                    if x2 is not None: x = 0.5 * (x + x2)
+                try: arg = inv(x)
+                except OverflowError: arg = dflt
+        return '%s %d%s %s E' % (fn, Z, '' if sh is None else ' %d' % sh, _hx(arg))
+    return None
+
+
 ACCESSOR = {'EdgeEnergy_arr': 'EdgeEnergy', 'AtomicLevelWidth_arr': 'AtomicLevelWidth', 'FluorYield_arr': 'FluorYield', 'JumpFactor_arr': 'JumpFactor',
             'LineEnergy_arr': 'LineEnergy', 'RadRate_arr': 'RadRate', 'CosKron_arr': 'CosKronTransProb',
             'AtomicWeight_arr': 'AtomicWeight', 'ElementDensity_arr': 'ElementDensity'}
@@ -158,18 +226,19 @@ def find_record(root, table, Z, col, names):
 
 
 # ------------------------------------------------------------------------------------------------ comparison
-def compare(tabs, raw, comp, names, root, cov, what, replay=None):
+def compare(tabs, raw, comp, names, root, cov, what, replay=None, tag=''):
     """every cell of the model vs the raw dump of the real loaders and (comp is not None) the compiled tables"""
     bad = []
     def note(msg):
         if len(bad) < 6: bad.append(msg() if callable(msg) else msg)
         else: bad.append(None)
     n_raw = n_comp = n_ties = n_nonzero = 0
-    def call(name, Z, col):
-        """the public accessor call that reads this cell (C01's replay line)"""
-        if replay is None or name not in ACCESSOR or len(replay) >= 8: return
-        mac = '' if name in ('AtomicWeight_arr', 'ElementDensity_arr') else ' %d' % (-(col + 1) if name in ('LineEnergy_arr', 'RadRate_arr') else col)
-        l = '%s %d%s E' % (ACCESSOR[name], Z, mac)
+    def call(name, j, k=None):
+        """the public call that reads this cell (C01's replay line; `tag` marks the data configuration it has to run on)"""
+        if replay is None or len(replay) >= 24: return
+        l = reader_call(name, j, k, tabs, names)
+        if l is None: l = '# cell %s[%d]%s: no entry point of the library reads this table' % (name, j, '' if k is None else '[%d]' % k)
+        else: l = l + tag
         if l not in replay: replay.append(l)
     for name, t in sorted(tabs.items(), key=lambda kv: 'FIV'.index(kv[1][0])):      # record tables first
         if t[0] == 'F':
@@ -199,6 +268,7 @@ def compare(tabs, raw, comp, names, root, cov, what, replay=None):
                         n_ties += 1
                         cov[what + '_decimal_ties_in_record_tables'] = cov.get(what + '_decimal_ties_in_record_tables', 0) + 1
                         if got != float('%.10E' % rv[k]) or abs(got - float(p11)) > abs(float(p11)) * 2e-10:
+                            call(name, k // ncols, k % ncols)
                             note('%s[%d][%d]: decimal tie, compiled %r is not the 11-digit neighbour of %s' % (name, k // ncols, k % ncols, got, ex))
                     elif float(p11) != got:
                         call(name, k // ncols, k % ncols)
@@ -211,6 +281,7 @@ def compare(tabs, raw, comp, names, root, cov, what, replay=None):
                 iv, _ = src.ints(name)
                 if list(iv) != vals:
                     k = next((j for j in range(min(len(iv), len(vals))) if iv[j] != vals[j]), -1)
+                    if k >= 0: call(name, k, None)
                     note('%s: %s and model differ (first at flat index %d: %s vs %s) [count line of element %d in its data file]' % (
                         name, lab, k, iv[k] if k >= 0 else len(iv), vals[k] if k >= 0 else len(vals), k // ncols if k >= 0 else -1))
                 n_raw += len(vals)
@@ -225,20 +296,21 @@ def compare(tabs, raw, comp, names, root, cov, what, replay=None):
                 if rvs is not None:
                     r = rvs[j]
                     if not v:
-                        if v is None and len(r) != 0: note('%s[%d]: model says NULL, real loader has %d values' % (name, j, len(r)))
-                    elif len(r) != len(v): note('%s[%d]: %d values in the real loader, %d in the model' % (name, j, len(r), len(v)))
+                        if v is None and len(r) != 0: call(name, j, 0); note('%s[%d]: model says NULL, real loader has %d values' % (name, j, len(r)))
+                    elif len(r) != len(v): call(name, j, min(len(r), len(v)) - 1 if min(len(r), len(v)) else 0); note('%s[%d]: %d values in the real loader, %d in the model' % (name, j, len(r), len(v)))
                     else:
                         for k, c in enumerate(v):
                             ex = c[:c.index(' ')]
                             n_raw += 1
                             if float(ex) != r[k]:
+                                call(name, j, k)
                                 note('%s[%d][%d]: real loader holds %r, model %s (row %d of element/block %d)' % (name, j, k, r[k], ex, k, j))
                                 break
                 if cvs is not None:
                     g = cvs[j]
                     if not v:
-                        if len(g) > 1 or (len(g) == 1 and g[0] != 0.0): note('%s[%d]: model has no data, compiled vector has %d values' % (name, j, len(g)))
-                    elif len(g) != len(v): note('%s[%d]: %d compiled values, %d in the model' % (name, j, len(g), len(v)))
+                        if len(g) > 1 or (len(g) == 1 and g[0] != 0.0): call(name, j, 0); note('%s[%d]: model has no data, compiled vector has %d values' % (name, j, len(g)))
+                    elif len(g) != len(v): call(name, j, min(len(g), len(v)) - 1 if min(len(g), len(v)) else 0); note('%s[%d]: %d compiled values, %d in the model' % (name, j, len(g), len(v)))
                     else:
                         for k, c in enumerate(v):
                             ex, p11, tie = c.split(' ')
@@ -246,8 +318,10 @@ def compare(tabs, raw, comp, names, root, cov, what, replay=None):
                             if tie == '1':
                                 n_ties += 1
                                 if abs(g[k] - float(p11)) > abs(float(p11)) * 2e-10 or (rvs is not None and g[k] != float('%.10E' % rvs[j][k])):
+                                    call(name, j, k)
                                     note('%s[%d][%d]: decimal tie, compiled %r is not an 11-digit neighbour of %s' % (name, j, k, g[k], ex)); break
                             elif float(p11) != g[k]:
+                                call(name, j, k)
                                 note('%s[%d][%d]: compiled vector holds %r, model print11(%s) = %s' % (name, j, k, g[k], ex, p11)); break
     for name, (kind, dims, st, n) in raw.idx.items():
         if name not in tabs and name not in ('Auger_Rates', 'Auger_Yields', 'xrf_cross_sections_constants_full', 'xrf_cross_sections_constants_auger_only'):
@@ -587,11 +661,11 @@ def generated_dirs(ctx, rep, names, n):
         rep.setdefault('loader_failing_specs', []).extend(msgs[:10])
 
 
-def kissel_configuration(ctx, rep, names):
+def kissel_configuration(ctx, rep, names, kinds=('real', 'synth')):
     """the further data configurations of this tree (DESIGN §0; vlib/core.build_kissel_config): kissel_pe.dat regenerated
     from data/kissel ('real') and the synthetic one ('synth') — the nested-block loader of src/xrayfiles.c:590-627 on
     full-size files, raw and compiled"""
-    for kind in ('real', 'synth'):
+    for kind in kinds:
         t = time.time()
         try:
             suf = ctx.build_kissel_config(kind)
@@ -607,7 +681,7 @@ def kissel_configuration(ctx, rep, names):
             rep['tie_broken'].append('Kissel configuration %s: model %s, real loaders %s' % (kind, m[1:] if m[0] != 'OK' else 'OK', c if c[0] != 'OK' else 'OK'))
         else:
             comp = Dump(ctx.sc.path(dmp + '.bin'), ctx.sc.path(dmp + '.idx'))
-            bad = compare(m[1], c[1], comp, names, root, ctx.coverage, 'kissel_' + kind)
+            bad = compare(m[1], c[1], comp, names, root, ctx.coverage, 'kissel_' + kind, rep.setdefault('loader_replay_lines', []), '  @' + kind)
             if bad: rep['tie_broken'].append('loader model vs real loaders, Kissel configuration %s: ' % kind + ' || '.join(bad[:4]))
         ctx.timings['loader_kissel_' + kind] = round(time.time() - t, 2)
 
@@ -635,8 +709,9 @@ def loader_tie(ctx, rep):
         if hits:
             rep.setdefault('loader_replay_lines', []).extend(hits)
             rep['tie_broken'].append('name table vs header macros: ' + hits[0])
-    if ctx.tier == 'thorough':
-        kissel_configuration(ctx, rep, names)
+    # the nested-block loader of kissel_pe.dat (theorems kissel_config_spec / kissel_empty_file): the shipped file is EMPTY (part of
+    # the shipped tie above: no block, every cell OUTD); the regenerated table in every tier, the synthetic one in the thorough tier
+    kissel_configuration(ctx, rep, names, ('real', 'synth') if ctx.tier == 'thorough' else ('real',))
     generated_dirs(ctx, rep, names, 300 if ctx.tier == 'thorough' else 24)
     ctx.notes.append('loader tie: %d cells vs real loaders, %d vs compiled tables, %d decimal ties, %d generated directories %s' % (
         ctx.coverage.get('shipped_cells_vs_real_loader', 0), ctx.coverage.get('shipped_cells_vs_compiled_tables', 0),
